@@ -74,6 +74,10 @@ def test_counts(out):
 
 
 def cmd_confirm(i, wt, demo_cmd):
+    # refs/stash is shared by all worktrees of /repo: two confirmations at once would pop each other's stash
+    import fcntl
+    lock = open("/tmp/verif-seed-confirm.lock", "w")
+    fcntl.flock(lock, fcntl.LOCK_EX)
     env = {"CARGO_TARGET_DIR": os.path.join(wt, "target")}
     patch = os.path.join(VERIF, "seeded", i, "patch.diff")
     # make sure the change is applied
